@@ -249,3 +249,28 @@ Theorem C05_find_tri_none_iff :
     (forall t, In t ts -> contains p nn t = false).
 Proof. exact find_tri_none. Qed.
 Print Assumptions C05_find_tri_none_iff.
+
+(* A finite result lies within the range of the table's moduli times the
+   scaling factor: interpolation never over- or undershoots the table. *)
+Theorem C05_result_within_lut_range :
+  forall (tri : list pt -> list triangle) (delta : feat -> Q -> Q -> Q)
+         (L : lut) (S : setup) (v : Q) (ev : event) (e lo hi : Q),
+    lut_ok L -> setup_ok S -> 0 <= v ->
+    0 <= s_fr S ->
+    (forall n, In n (l_nodes L) -> lo <= ne n <= hi) ->
+    route_scalar tri delta L S v [ev] = [Some e] ->
+    lo * emod_factor (l_cw L) (s_cw S) (l_fr L) (s_fr S) (l_visc L) v <= e
+    /\ e <= hi * emod_factor (l_cw L) (s_cw S) (l_fr L) (s_fr S) (l_visc L) v.
+Proof. exact result_within_lut_range. Qed.
+Print Assumptions C05_result_within_lut_range.
+
+(* The specification is a function of the numbers, not of their
+   representation as fractions. *)
+Theorem C05_spec_depends_on_values_only :
+  forall (tri : list pt -> list triangle) (delta : feat -> Q -> Q -> Q)
+         (L : lut) (S : setup) (v : Q) (ev ev' : event),
+    (forall f px x x', x == x' -> delta f px x == delta f px x') ->
+    fst ev == fst ev' -> snd ev == snd ev' ->
+    spec_emod tri delta L S v ev = spec_emod tri delta L S v ev'.
+Proof. exact spec_emod_compat. Qed.
+Print Assumptions C05_spec_depends_on_values_only.
